@@ -16,12 +16,14 @@ RULE = ("sequences of vault operations (open_deposit_mint on new/existing/unknow
         "deposit/withdraw_uni_position, burn_and_withdraw, liquidate, update, _reduce_debt, remove_liquidity on the pool) on a real "
         "Broker + UniLpMarket(oSQTH/WETH) + SqueethMarket, interleaved with moves along random price / norm-factor paths (spot mode, "
         "7-point TWAP, short history, coarse grid, shocks) plus a boundary stream of exactly representable ties (2·coll = 3·debt, "
-        "coll = 0.5, coll − pay = 0.5, coll = pay); bucket = (operation, model rejection cause / ok, argument class, path kind)")
+        "coll = 0.5, coll − pay = 0.5, coll = pay), the same LP cases on a pool whose token0 is oSQTH, and every amount slot fed with NaN / sNaN / +-Infinity / 1E+-400 / -0; "
+        "bucket = (operation, model rejection cause / ok, argument class, path kind)")
 TRUSTED = ["the geometric mean of the selected TWAP prices (float log/pow in helper.calc_twap_price) is an oracle: the value the real code "
            "computed is handed to the model; it is cross-checked against a 60-digit Decimal geometric mean at 1e-9",
            "theorems are stated for the exact rational semantics (NumCtx.exact); the driver reproduces the 35-digit Decimal rounding bit-exactly",
            "UniLpMarket.add_liquidity_by_tick is only used to create LP positions (its own correctness is C03/C07's subject)"]
-ASSUMPTIONS = ["the oSQTH/WETH pool has token0 = WETH = quote token (as on mainnet and in the repo's tests); _get_effective_collateral_in_eth hard-codes it",
+ASSUMPTIONS = ["the model knows the mainnet orientation of the oSQTH/WETH pool (token0 = WETH = quote token); worlds whose pool has token0 = oSQTH (1 in 6, plus boundary cases) "
+               "are judged by the independent oracles only",
                "Broker.allow_negative_balance = False (default)",
                "market data index is ascending and unique, the current timestamp is one of its labels (Actuator guarantees both), prices > 0",
                "Decimal arithmetic = exact result rounded half-even to 35 digits"]
@@ -195,6 +197,24 @@ def oracle(ctx, o):
             if not close(wallet_of(o.after, "OSQTH"), wallet_of(o.before, "OSQTH") + excess_total) or \
                     not close(wallet_of(o.after, "WETH"), wallet_of(o.before, "WETH")):
                 ctx.violate("liquidation.wallet", f"update() moved the wallet from {o.before['wallet']} to {o.after['wallet']}; excess oSQTH from redeemed LP = {float(excess_total):.9g}", o.replay())
+    # ---- redeeming the LP collateral on its own (the first stage of a liquidation): every oSQTH of the position burns debt (excess to the
+    #      wallet), its WETH becomes collateral, 2 % bounty out of the vault's ETH; the position leaves the vault and the pool
+    if k == "reduceDebt" and accepted:
+        v = vault_of(o.before, o.op["vk"])
+        av = vault_of(o.after, o.op["vk"])
+        if v is not None and v["nft"] is not None and tuple(v["nft"]) in sp0.pos:
+            w, q = sp0.lp_tokens(v["nft"])
+            burn = min(q, L.fr(v["short"]))
+            bounty = min((q * sp0.to + w) * F(2, 100), L.fr(v["coll"]) + w) if o.op["payBounty"] else F(0)
+            scale = L.fr(v["coll"]) + w + q + L.fr(v["short"])
+            ok = av is not None and av["nft"] is None and close(av["short"], L.fr(v["short"]) - burn, scale=scale) and \
+                close(av["coll"], L.fr(v["coll"]) + w - bounty, scale=scale) and \
+                close(wallet_of(o.after, "OSQTH"), wallet_of(o.before, "OSQTH") + q - burn, scale=scale) and close(wallet_of(o.after, "WETH"), wallet_of(o.before, "WETH"))
+            if not ok:
+                ctx.violate("reduce-debt.amounts", f"_reduce_debt({o.op['vk']}, {o.op['payBounty']}) on vault {v} whose LP holds {float(w):.9g} WETH + {float(q):.9g} oSQTH "
+                            f"left vault {av}, wallet {o.before['wallet']} -> {o.after['wallet']}; the rule burns {float(burn):.9g} oSQTH, adds {float(w):.9g} ETH, "
+                            f"bounty {float(bounty):.9g}", o.replay())
+            ctx.count("reduce_debt_checked")
     if k == "liquidate":
         v = vault_of(o.before, o.op["vk"])
         if v is not None:
@@ -263,6 +283,13 @@ def boundary_cases():
     out.append(("update-lp-saved-bounty-exceeds-eth", mk([[1, v("0", "3", [18000, 21000])]], [[[18000, 21000], pos(10 ** 19, "0", "0.2")]]), E(), {"k": "update"}))
     out.append(("update-lp-saved", mk([[1, v("0.2", "4.5", [18000, 21000])]], [[[18000, 21000], pos(10 ** 19, "0.01", "0.2")]]), E(), {"k": "update"}))
     out.append(("lp-closed-pool", mk([[1, v("0.1", "12", [21000, 25020])]], [[[21000, 25020], pos(10 ** 19)]]), E(uni_open=False), {"k": "update"}))
+    # the same LP collateral in a pool whose token0 is oSQTH (ticks mirrored; pending fees in (token0, token1) = (oSQTH, WETH) order)
+    for name, key in (("lp-around", [-25020, -21000]), ("lp-all-weth", [-25020, -24000]), ("lp-all-osqth", [-21000, -18000])):
+        for coll, short in (("0", "6"), ("0.2", "12"), ("1", "30"), ("0.3", "3"), ("1", "12")):
+            out.append((f"flip-update-{name}-{coll}-{short}", mk([[1, v(coll, short, key)]], [[key, pos(10 ** 19, "0.2", "0.01")]]), E(flip=True), {"k": "update"}))
+        out.append((f"flip-withdraw-{name}", mk([[1, v("1", "8", key)]], [[key, pos(10 ** 19)]]), E(flip=True), {"k": "withdrawUni", "vk": 1, "pos": key}))
+        out.append((f"flip-reduce-{name}", mk([[1, v("1", "8", key)]], [[key, pos(10 ** 19, "0.2", "0.01")]]), E(flip=True), {"k": "reduceDebt", "vk": 1, "payBounty": True}))
+        out.append((f"flip-mint-{name}", mk([], [[key, pos(10 ** 19, "0.2", "0.01", False)]]), E(flip=True), {"k": "openMint", "deposit": D("0.6"), "mint": D(12), "vk": None, "pos": key}))
     return out
 
 
@@ -373,9 +400,12 @@ def run(ctx: Ctx):
         oracle(ctx, o)
         runner.add(o)
     runner.finish()
+    L.special_stream(ctx, ctx.scale(150, 3000), "", reject_intact=False)
 
 
 def replay(ctx: Ctx, case) -> bool:
+    if case.get("special"):
+        return L.special_replay(case, "", reject_intact=False)
     world = L.World(G.parse_spec(case["spec"]), G.parse_env(case["env"]))
     o = L.observe(world, G.parse_op(case["op"]), "replay")
     sub = Ctx(ctx.prop, ctx.tier, ctx.seed, False)
